@@ -120,14 +120,15 @@ Definition key_names (t : table_def) : list string :=
 Definition fk_names (t : table_def) : list string := map fk_name (create_fks (t_name t) (t_constraints t)).
 Definition derived_collision (s : schema) : bool :=
   (existsb (fun t => has_dup (key_names t)) s || has_dup (flat_map fk_names s))%bool.
+(* in the baseline already (the believed catalog then holds two objects of one name), or after some action *)
 Definition known_C04_derived_name_collision (s : schema) (acts : list action) : bool :=
-  along (fun s a => derived_collision (step s a)) s acts.
+  (derived_collision s || along (fun s a => derived_collision (step s a)) s acts)%bool.
 
 (* ---- explicit CHECK names are per table in the model, per schema in MySQL ---- *)
 Definition check_names (t : table_def) : list string :=
   flat_map (fun k => match k with CCheck n _ => [n] | _ => [] end) (t_constraints t).
 Definition known_C04_check_name_scope (s : schema) (acts : list action) : bool :=
-  along (fun s a => has_dup (flat_map check_names (step s a))) s acts.
+  (has_dup (flat_map check_names s) || along (fun s a => has_dup (flat_map check_names (step s a))) s acts)%bool.
 
 (* ---- a key that a foreign key relies on (no implicit index was ever needed) is removed ---- *)
 Definition p_key_needed_by_fk (s : schema) (a : action) : bool :=
@@ -155,6 +156,41 @@ Definition p_autoinc_pk_added (s : schema) (a : action) : bool :=
   match a with AddConstraint _ (CPrimaryKey true _) => true | _ => false end.
 Definition known_C04_autoinc_not_added := along p_autoinc_pk_added.
 
+(* ---- apply_action's drop_column_from_constraints also filters ref_columns: deleting a LOCAL column whose name
+   equals a referenced column's name removes the foreign key from the baseline; MySQL keeps it ---- *)
+Definition p_fk_lost_by_ref_name (s : schema) (a : action) : bool :=
+  match a with
+  | DeleteColumn t c =>
+      existsb (fun k => match k with
+                        | CForeignKey _ cols _ rcols _ _ => (mem_str c rcols && negb (mem_str c cols))%bool
+                        | _ => false
+                        end) (constraints_of s t)
+  | _ => false
+  end.
+Definition known_C04_fk_lost_by_ref_name := along p_fk_lost_by_ref_name.
+
+(* ---- C06 "reference added later": a foreign key is created before its target table / column / key exists
+   (CreateTable is hoisted to the front; the target's key is re-made later in the same plan) ---- *)
+Definition fk_target_ready (s : schema) (rt : string) (rcols : list string) : bool :=
+  match find_table rt s with
+  | Some r => (forallb (fun c => has_column c r) rcols && existsb (is_prefix rcols) (key_cols_of (t_constraints r)))%bool
+  | None => false
+  end.
+Definition p_reference_added_later (s : schema) (a : action) : bool :=
+  match a with
+  | AddConstraint _ (CForeignKey _ _ rt rcols _ _) => negb (fk_target_ready s rt rcols)
+  | CreateTable t cols ks =>
+      match normalize (mkTable t None cols ks) with
+      | Ok n => existsb (fun k => match k with
+                                  | CForeignKey _ _ rt rcols _ _ => (negb (String.eqb rt t) && negb (fk_target_ready s rt rcols))%bool
+                                  | _ => false
+                                  end) (t_constraints n)
+      | Err _ => false
+      end
+  | _ => false
+  end.
+Definition known_C04_reference_added_later := along p_reference_added_later.
+
 (* order = order of the "classifier" fields looked up by checks/mysqlrun.py *)
 Definition known_classifiers : list (schema -> list action -> bool) :=
-  [known_C04_autoinc_lost; known_C04_check_missing; known_C04_drop_before_unreference; known_C04_drop_fk_column; known_C04_composite_member_drop; known_C04_autoinc_key_removed; known_C04_rename_drift; known_C04_fk_drop_leaves_index; known_C04_derived_name_collision; known_C04_check_name_scope; known_C04_key_needed_by_fk; known_C04_last_column_drop; known_C04_autoinc_not_added].
+  [known_C04_autoinc_lost; known_C04_check_missing; known_C04_drop_before_unreference; known_C04_drop_fk_column; known_C04_composite_member_drop; known_C04_autoinc_key_removed; known_C04_rename_drift; known_C04_fk_drop_leaves_index; known_C04_derived_name_collision; known_C04_check_name_scope; known_C04_key_needed_by_fk; known_C04_last_column_drop; known_C04_autoinc_not_added; known_C04_fk_lost_by_ref_name; known_C04_reference_added_later].
